@@ -10,11 +10,14 @@ def run_history(ctx, prop, seed, clients, nops, shape, binary='h', tag='c'):
     rc, o, e = vlib.sh([os.path.join(vlib.BIN, binary), 'conc', '-seed', str(seed), '-clients', str(clients), '-nops', str(nops),
                         '-shape', shape, '-out', trace], timeout=600)
     fails = []
-    races = re.findall(r'WARNING: DATA RACE\n(?:.*\n){0,40}?==================', e or '')
+    races = re.findall(r'WARNING: DATA RACE\n(?:.*\n){0,200}?==================', e or '')
     for r_ in races[:3]:
         funcs = re.findall(r'^\s+(github\.com/mit-pdos/go-nfsd/[^\s(]+)', r_, re.M)
         where = '|'.join(sorted(set(f.split('/')[-1] for f in funcs))[:6])
         fails.append(Failure(prop, 'race', where, r_[:1500], replay=dict(rep, report=r_[:3000])))
+    if not races and 'WARNING: DATA RACE' in (e or ''):
+        i0 = e.index('WARNING: DATA RACE')
+        fails.append(Failure(prop, 'race', 'unparsed-report', e[i0:i0 + 1500], replay=dict(rep, report=e[i0:i0 + 3000])))
     if rc not in (0, 3, 66) and not races:
         fails.append(Failure(prop, 'panic', 'conc-harness', (e or o)[-600:], replay=rep))
     st = dict(lin='', ops=0, txns=0)
